@@ -249,7 +249,7 @@ def exact(chk, F):
 
 
 def duration(chk, F):
-    fn = F.find(CORE, "runtime::eval::eval_query")
+    fn = F.find(CORE, "runtime::eval::eval_query", inline=True, keep=("::to_list",))
     fk = "rink_core::runtime::eval::eval_query"
     aggs = [(i, j, st) for i, j, st in fn.stmts() if st.get("rv", {}).get("k") == "agg" and st["rv"].get("adt", "").endswith("reply::DurationReply")]
     if len(aggs) != 1:
@@ -268,9 +268,8 @@ def duration(chk, F):
     chk.decide(sec, "duration-breakdown", fk, "only-for-seconds", fn.where(i, j), "the breakdown is produced only behind `n.unit == s`", "the duration breakdown is not guarded by the unit being seconds")
     # the unit names handed to to_list
     tl = [(bb, t) for bb, t in fn.calls() if "callee" in t and t["callee"]["path"].endswith("runtime::eval::to_list") and fn.dominates(bb, i)]
-    h = F.hir_of(fn)
     from facts import hir_walk
-    arrs = [a for a in hir_walk(h["body"]) if a.get("k") == "Array" and len(a["elems"]) == 6 and all(e.get("k") == "Lit" for e in a["elems"])]
+    arrs = [a for h in F.hirs_of(fn) for a in hir_walk(h["body"]) if a.get("k") == "Array" and len(a["elems"]) == 6 and all(e.get("k") == "Lit" for e in a["elems"])]
     names = [e["lit"]["v"] for e in arrs[0]["elems"]] if arrs else []
     chk.decide(names == ["year", "week", "day", "hour", "minute", "second"], "duration-breakdown", fk, "unit-order", fn.where(),
                "breakdown units are year, week, day, hour, minute, second in that order (matching the reply fields)", "breakdown unit list is %s" % names)
